@@ -23,16 +23,18 @@ static Str piece_at(const ref::RUri &r, int off, int len) {
     return "other";
 }
 
+static inline bool near_pow2(int c) { for (int p = 4; p > 0 && p <= (1 << 30); p <<= 1) { if (c >= p - 1 && c <= p + 1) return true; if (p > c + 1) break; } return false; }
+
 template <class C> struct Runner {
     typedef Api<C> A; typedef typename A::Uri Uri;
     OutBuf ob; Ctx *ctx; Local *lc;
-    Runner(Ctx *c, Local *l) : ob(8), ctx(c), lc(l) {}
+    Runner(Ctx *c, Local *l, size_t pages = 8) : ob(pages), ctx(c), lc(l) {}
     static Str enc(const Str &how, int cap, int cw) { return how + "`" + fmt("%d`%d`%s", cap, cw, A::name()); }
     // all capacities for one object; `how` describes how it was made (replayable)
     void object(const Str &how, const Uri &u, int only_cap = -1000, int only_cw = -1) {
         lc->objects++;
         int need = -5; int rc = A::ToStringCharsRequired(&u, &need);
-        if (rc != URI_SUCCESS || need < 0 || need > 3000) { ctx->violation("", enc(how, 0, 0), fmt("ToStringCharsRequired rc=%d value=%d", rc, need)); return; }
+        if (rc != URI_SUCCESS || need < 0 || (size_t)need + 80 > ob.bytes / sizeof(C)) { ctx->violation("", enc(how, 0, 0), fmt("ToStringCharsRequired rc=%d value=%d", rc, need)); return; }
         // reference text: written with ample room
         std::vector<C> big((size_t)need + 16, (C)0x55); int w0 = -5;
         rc = A::ToString(big.data(), &u, need + 16, &w0);
@@ -42,6 +44,8 @@ template <class C> struct Runner {
         Str text = narrow<C>(big.data(), big.data() + len); ref::RUri r; bool have_r = ref::decompose(text, r);
         for (int cap = -1; cap <= need + 2; cap++) for (int cw = 0; cw < 2; cw++) {
             if ((only_cap != -1000 && cap != only_cap) || (only_cw >= 0 && cw != only_cw)) continue;
+            // long objects (stretch family): the capacities at both ends, around the middle and around every power of two
+            if (need > 700 && cap > 3 && cap < need - 3 && !(cap >= need / 2 && cap <= need / 2 + 1) && !near_pow2(cap)) continue;
             lc->calls++; ctx->progress++;
             size_t room = cap > 0 ? (size_t)cap : 0;
             C *dst = (C *)ob.end_minus(room * sizeof(C), 0xC3, 64);      // dst + cap is the first byte of a PROT_NONE page
@@ -83,18 +87,20 @@ void run(Ctx &ctx) {
     Local lc; Runner<char> ra(&ctx, &lc); Runner<wchar_t> rw(&ctx, &lc);
     std::vector<Str> corpus = shape_list(ctx.secondary ? 0 : ctx.quick() ? 1 : 2);
     for (size_t i = 0; i < corpus.size(); i++) { if (!ctx.mine(i)) continue; if (ctx.expired()) break; SanWatch sw; ra.run_text(corpus[i]); rw.run_text(corpus[i]); if (sw.tripped()) ctx.violation("", "parsed:" + corpus[i] + "`0`0`A", "AddressSanitizer reported an invalid access"); }
+    { Runner<char> sa(&ctx, &lc, 160); Runner<wchar_t> sw2(&ctx, &lc, 160); std::vector<Str> st = stretch_list(ctx.secondary || ctx.quick() ? 0 : 1);
+      for (size_t i = 0; i < st.size(); i++) { if (!ctx.mine(i)) continue; if (ctx.expired()) break; sa.run_text(st[i]); sw2.run_text(st[i]); ctx.st.count("stretch_family"); } }
     ctx.st.count("evaluations", lc.calls); ctx.st.count("objects", lc.objects); ctx.st.count("capacity_too_small", lc.too_small); ctx.st.count("capacity_sufficient", lc.fits);
     for (auto &s : lc.cuts) ctx.st.distinct("cut_pieces", s);
     if (ctx.worker == 0) { ctx.st.count("corpus", corpus.size()); ctx.st.sample("parsed:s://u:p@[A:b::1.2.3.4]:80/a/b?q#f capacity=17 charsWritten!=NULL"); ctx.st.sample("resolved:../a capacity=-1"); }
 }
 void replay(Ctx &ctx, const Str &enc) {
     std::vector<Str> p = split(enc, '`'); if (p.size() != 4) return; Local lc; size_t c = p[0].find(':'); if (c == Str::npos) return;
-    if (p[3] == "A") { Runner<char> r(&ctx, &lc); r.run_text(p[0].substr(c + 1), p[0], atoi(p[1].c_str()), atoi(p[2].c_str())); } else { Runner<wchar_t> r(&ctx, &lc); r.run_text(p[0].substr(c + 1), p[0], atoi(p[1].c_str()), atoi(p[2].c_str())); }
+    if (p[3] == "A") { Runner<char> r(&ctx, &lc, 160); r.run_text(p[0].substr(c + 1), p[0], atoi(p[1].c_str()), atoi(p[2].c_str())); } else { Runner<wchar_t> r(&ctx, &lc, 160); r.run_text(p[0].substr(c + 1), p[0], atoi(p[1].c_str()), atoi(p[2].c_str())); }
 }
 Str coverage(const Ctx &, const Stats &st) {
     return jkv("evaluations", st.get("evaluations")) + ", " + jkv("distinct_nontrivial", st.get("capacity_too_small")) + ", " +
            jkvs("rule", "cases = (URI object, capacity, charsWritten NULL or not, char type): objects are every URI of the shape product as parsed, after full normalisation, after resolution against a base and after reference creation; capacity takes EVERY value from -1 to required+2; the destination is placed so that dest+capacity is the first byte of an inaccessible page, so one character too many faults. distinct_nontrivial = calls with a capacity smaller than required+1 (each a distinct (object, capacity, flag) triple by construction); cut_piece_kinds = distinct kinds of text piece in which the capacity ended.") + ", " +
-           jkv("objects", st.get("objects")) + ", " + jkv("corpus_texts", st.get("corpus")) + ", " + jkv("capacity_too_small", st.get("capacity_too_small")) + ", " + jkv("capacity_sufficient", st.get("capacity_sufficient")) + ", " + jkv("cut_piece_kinds", st.nset("cut_pieces")) + ", " + jsamples(st);
+           jkv("objects", st.get("objects")) + ", " + jkv("corpus_texts", st.get("corpus")) + ", " + jkv("capacity_too_small", st.get("capacity_too_small")) + ", " + jkv("capacity_sufficient", st.get("capacity_sufficient")) + ", " + jkv("cut_piece_kinds", st.nset("cut_pieces")) + ", " + jkv("stretch_family_texts", st.get("stretch_family")) + ", " + jsamples(st);
 }
 Check chk = { "C05", "exploration", run, replay, coverage, "the text written with ample room is the reference for the same object (its correctness is the subject of C04/C06/C08)|sizes near INT_MAX are outside the enumerated space" };
 REGISTER_CHECK(chk);
